@@ -59,6 +59,11 @@ def exhaustive(tier):
                                    "stsc_split": (lambda j: True) if split_stsc else None,
                                    "stts_split": (lambda j: j % 2 == 0) if split_tt else None,
                                    "ctts_split": (lambda j: j % 2 == 1) if split_tt else None}])
+                    if i % 4 == 1 and n >= 2:
+                        # the same track with zero-count runs sprinkled into stts and ctts (ctts padded to exactly one ENTRY per sample)
+                        z = dict(cases[-1][0])
+                        z["zero_runs"] = 1 + i % 2
+                        cases.append([z])
     return cases
 
 
@@ -87,7 +92,90 @@ def random_tracks(rng, maxn):
                     "stsc_split": (lambda j, p=p: (j * 7919) % 10 < p * 10) if rng.random() < 0.5 else None,
                     "stts_split": (lambda j, p=p: (j * 31) % 10 < p * 5) if rng.random() < 0.5 else None,
                     "ctts_split": (lambda j, p=p: (j * 17) % 10 < p * 5) if rng.random() < 0.5 else None})
+        if rng.random() < 0.2:
+            trs[-1]["zero_runs"] = rng.choice([1, 2])
     return trs
+
+
+def huge_tracks():
+    """declared sample sizes that add up to 2^32 and more inside ONE chunk (legal: co64 / 64-bit mdat); the file carries only the first bytes of
+    each sample (data_cap), so only the offset lookups are defined by the file — they are sums in 64 bits"""
+    out = []
+    M = U32
+    for sizes, chunks in (([M - 8, 0x18, 8, 8], [4]), ([M - 1, 1, 1], [3]), ([M - 1, M - 1, M - 1, 5], [4]), ([1 << 31, 1 << 31, 7, 9], [4]),
+                          ([3, M - 2, 2, 4], [1, 3]), ([1 << 31, (1 << 31) - 1, 1, 2, 3], [2, 3]), ([M - 1] * 6, [6]), ([M - 1] * 5 + [2], [1, 5])):
+        for co64 in (False, True):
+            n = len(sizes)
+            out.append([{"id": 1, "kind": "avc", "ts": 1000, "sizes": list(sizes), "chunks": list(chunks), "deltas": [10] * n, "cts": None, "sync": None,
+                         "co64": co64, "data_cap": 4}])
+    return out
+
+
+def virtual_tracks():
+    """tiny files whose run-length tables describe up to 2^32-1 samples (constant sample size, a few runs, a few chunks).  The tables cannot be
+    enumerated, so the expected answers come from run_semantics below (14496-12 8.6.1.2, 8.7.3-8.7.5 evaluated on the runs), not from the model."""
+    out = []
+    M = U32
+    for N in (M - 1, 1 << 31, (1 << 24) + 1, 70000):
+        for s in (1, 3, 65536 + 1, M - 1):
+            for shape in range(4):
+                if shape == 0:       # one chunk
+                    stsc, offs = [(1, N, 1)], [1 << 33]
+                elif shape == 1:     # two chunks of unequal length
+                    stsc, offs = [(1, N - 5, 1), (2, 5, 1)], [5000, 1 << 40]
+                elif shape == 2:     # three chunks, the first two equal (one run)
+                    a = N // 3
+                    stsc, offs = [(1, a, 1), (3, N - 2 * a, 1)], [1 << 34, 9, (1 << 63) // max(1, s)]
+                else:                # chunks of one sample are impossible at this scale: two runs of two chunks each
+                    a, b = N // 4, (N - 2 * (N // 4)) // 2
+                    if 2 * a + 2 * b != N:
+                        stsc, offs = [(1, a, 1), (3, b, 1), (4, N - 2 * a - b, 1)], [100, 200 + a * s, 1 << 35, 1 << 36]
+                    else:
+                        stsc, offs = [(1, a, 1), (3, b, 1)], [100, 200 + a * s, 1 << 35, 1 << 36]
+                stts = [(N, 1)] if shape == 0 else [(1, 7), (N - 2, 3), (1, 0)] if shape == 1 else [(N // 2, M - 1), (N - N // 2, 2)] if shape == 2 else [(0, 9), (N, 1000)]
+                ctts = None if shape % 2 == 0 else [(N - 1, -4), (1, 2 ** 31 - 1)]
+                stss = None if shape < 2 else [1, N // 2, N] if shape == 2 else []
+                tb = {"stsc": stsc, "stsz": (s, N, []), "stts": stts, "ctts": ctts, "stss": stss, "co64": offs}
+                out.append({"id": 1, "kind": "avc", "ts": 1000, "sizes": [], "chunks": [], "deltas": [], "cts": None, "sync": None, "co64": True,
+                            "tables_override": tb, "duration": sum(c * d for c, d in stts)})
+    return out
+
+
+def run_semantics(tb, k):
+    """(offset, size, start, delta, cts, sync) of sample k (1-based) from run-length tables with a constant sample size; None outside 1..N"""
+    s, N, _ = tb["stsz"]
+    if not (1 <= k <= N):
+        return None
+    offs = tb.get("co64") if tb.get("co64") is not None else tb["stco"]
+    # chunk runs
+    first_sample = 1
+    off = None
+    for i, (fc, spc, _) in enumerate(tb["stsc"]):
+        last_chunk = tb["stsc"][i + 1][0] - 1 if i + 1 < len(tb["stsc"]) else len(offs)
+        nch = last_chunk - fc + 1
+        if k < first_sample + nch * spc:
+            c = fc + (k - first_sample) // spc
+            off = offs[c - 1] + ((k - first_sample) % spc) * s
+            break
+        first_sample += nch * spc
+    start, left, delta = 0, k - 1, None
+    for cnt, d in tb["stts"]:
+        if left < cnt:
+            start += left * d
+            delta = d
+            break
+        start += cnt * d
+        left -= cnt
+    cts = 0
+    if tb.get("ctts") is not None:
+        left = k - 1
+        for cnt, c in tb["ctts"]:
+            if left < cnt:
+                cts = c
+                break
+            left -= cnt
+    sync = True if tb.get("stss") is None else (k in tb["stss"])
+    return off, s, start, delta, cts, sync
 
 
 def expected_from(model_out, data, n):
@@ -138,6 +226,7 @@ def check(rep):
     movies = exhaustive(rep.tier)
     n_ex = len(movies)
     movies += [random_tracks(rng, 120) for _ in range(400 if rep.tier == "quick" else 8000)]
+    movies += huge_tracks()
     files = []
     for i, trs in enumerate(movies):
         layout = "moov_first" if i % 2 == 0 else "mdat_first"
@@ -147,7 +236,7 @@ def check(rep):
         if base + 200000 >= U32:
             for t in trs:
                 t["co64"] = True       # 32-bit chunk offsets cannot represent these positions
-        r, tracks, _ = isogen.build_movie(trs, layout, base=base, large_mdat=(i % 7 == 3))
+        r, tracks, _ = isogen.build_movie(trs, layout, base=base, large_mdat=(i % 7 == 3), mdat_to_eof=(layout == "moov_first" and i % 5 == 1))
         files.append((bytes(r.data), tracks, base, layout))
     fails, ties = [], []
     stats = {"files": len(files), "tracks": 0, "samples": 0, "consistent": 0, "with_base": 0, "co64": 0, "fixed_size": 0, "with_ctts": 0, "with_stss": 0}
@@ -219,8 +308,13 @@ def check(rep):
                         want = dict(x["rs"])
                         if b != 0:
                             off = int(e["spec"]["off"], 16) - b
-                            want["bytes"] = d[off:off + want["len"]].hex()
-                        if got_off != x["off"] or got_rs != want:
+                            want["bytes"] = d[off:off + want["len"]].hex() if 0 <= off and off + want["len"] <= len(d) else None
+                        if want["bytes"] is None:
+                            # the declared sample lies (partly) beyond the bytes the file carries: the offset is defined, reading must not yield a sample
+                            bad = got_off != x["off"] or got_rs.get("r") == "some"
+                        else:
+                            bad = got_off != x["off"] or got_rs != want
+                        if bad:
                             fails.append(("sample_%s_%d_%d" % (profile, fi, k), {"kind": "input", "what": "sample %d of track %d differs from the ISO sample-table semantics" % (k, t["id"]),
                                                                                   "expected": {"off": x["off"], "rs": want}, "observed": {"off": got_off, "rs": got_rs},
                                                                                   "tables": t["tables"], "base": b, "layout": layout, "file": d.hex()}))
@@ -237,6 +331,55 @@ def check(rep):
                                                                                          "model": {"off": mo_off, "rs": mo_rs}, "impl": {"off": got_off, "rs": got_rs},
                                                                                          "tables": t["tables"], "file": d.hex()}))
                             break
+    # ---- virtual tracks (up to 2^32-1 samples described by a few runs): offsets for ids at every run / chunk boundary, against run_semantics
+    vts = virtual_tracks()
+    stats["virtual_tracks"] = len(vts)
+    stats["virtual_lookups"] = 0
+    for profile in ("debug", "release"):
+        vfiles, vlines = [], []
+        for vt in vts:
+            r, _, _ = isogen.build_movie([dict(vt)], "moov_first")
+            tb = vt["tables_override"]
+            N = tb["stsz"][1]
+            ids = {1, 2, N - 1, N, N + 1, N // 2, N // 2 + 1, 0xffffffff}
+            fs = 1
+            offs = tb["co64"]
+            for i, (fc, spc, _) in enumerate(tb["stsc"]):
+                last_chunk = tb["stsc"][i + 1][0] - 1 if i + 1 < len(tb["stsc"]) else len(offs)
+                for c in range(fc, last_chunk + 1):
+                    ids |= {fs - 1, fs, fs + 1}
+                    fs += spc
+            acc = 1
+            for cnt, _ in tb["stts"]:
+                acc += cnt
+                ids |= {acc - 1, acc}
+            ids = sorted(i for i in ids if 0 <= i <= 0xffffffff)
+            calls = [["cnt", 1, 0]] + [["off", 1, i] for i in ids] + [["off", 1, i] for i in reversed(ids)]
+            vfiles.append((bytes(r.data), tb, ids))
+            vlines.append(json.dumps({"cmd": "read", "file": bytes(r.data).hex(), "calls": calls}))
+        vraw = common.harness_run("run", profile, vlines)
+        for (d, tb, ids), raw in zip(vfiles, vraw):
+            try:
+                impl = json.loads(raw)
+            except Exception:
+                fails.append(("virtual_worker_%d" % len(fails), {"kind": "input", "what": "harness worker died / timed out on a file whose tables describe %d samples" % tb["stsz"][1], "tables": tb, "file": d.hex()}))
+                continue
+            if impl.get("open") != "ok":
+                fails.append(("virtual_open_%d" % len(fails), {"kind": "input", "what": "reader rejects a consistent file (%s)" % impl.get("open"), "tables": tb, "file": d.hex()}))
+                continue
+            for kind, tid, sid, v in impl["calls"]:
+                stats["virtual_lookups"] += 1
+                if kind == "cnt":
+                    want = "ok:%d" % tb["stsz"][1]
+                else:
+                    e = run_semantics(tb, sid)
+                    want = None if e is None else "ok:%d" % e[0]
+                bad = (v != want) if want is not None else (isinstance(v, str) and v.startswith("ok:"))
+                if bad:
+                    fails.append(("virtual_%s_%d" % (profile, len(fails)), {"kind": "input", "what": "%s(track 1, sample %d) on run-length tables describing %d samples: the tables define %s, the reader returns %s"
+                                                                            % ("sample_count" if kind == "cnt" else "sample_offset", sid, tb["stsz"][1], want or "no such sample", v),
+                                                                            "tables": tb, "profile": profile, "file": d.hex()}))
+                    break
     rep.coverage.update({
         "evaluations": 2 * len(files), "distinct_nontrivial": len(distinct),
         "rule": "exhaustive for N<=%d samples: every composition of N into chunks x stsc grouping (maximal / one run per chunk) x fixed/variable sizes with zeros x "
